@@ -190,6 +190,10 @@ def trace_case(item):
 def make_trace_run(cfg):
     from phyclone.tree import Tree, FSCRPDistribution, TreeJointDistribution
 
+    start = None
+    if cfg.get("start") is not None:
+        start = oracle.all_states(cfg["n"], outliers=True)[cfg["start"]]
+        cfg = {k: v for k, v in cfg.items() if k != "start"}
     c = chain.full(cfg)
     full_list = [i for i in range(c["iters"]) if i % c["thin"] == 0]
 
@@ -197,7 +201,11 @@ def make_trace_run(cfg):
         S.clear_caches()
         rec = {}
         try:
-            out, data = chain.run_chain(cfg, rng, record=rec)
+            if start is not None:
+                out, data = chain.run_main_from(cfg, rng, start)
+                rec["burnin_tree"] = oracle.build(start, data)
+            else:
+                out, data = chain.run_chain(cfg, rng, record=rec)
         except Exception as e:
             return ["chain raised %s: %s" % (type(e).__name__, str(e)[:150])], 0, None
         probs = []
@@ -270,6 +278,14 @@ def trace_items(tier):
                             out.append((base, "first", 1))
                         if tier == "thorough" and iters == 3:
                             out.append((dict(base, n=3), "likely", 1))
+    # the real main loop from EVERY tree over 3 data points (any of them can come out of burn-in)
+    for si in range(len(oracle.all_states(3, outliers=True))):
+        prop = props[si % 3]
+        cfg = dict(n=3, iters=2, thin=1, conc_update=bool(si % 2), proposal=prop, outlier_prob=0.3, subtree_prob=(1.0 if si % 4 < 3 else 0.0), start=si)
+        out.append((cfg, "first", 0))
+        out.append((cfg, "likely", 1))
+        if tier == "thorough":
+            out.append((cfg, "unlikely", 1))
     # subtree updates with outlier modelling on three data points: the only place where a recorded tree is
     # edited in place after it was recorded
     for prop in props:
